@@ -567,7 +567,10 @@ func (c *client) receive(r io.Reader) (err error) {
 	if header.CellBlockMeta != nil {
 		cellsLen = header.CellBlockMeta.GetLength()
 	}
-	if d, ok := rpc.(canDeserializeCellBlocks); cellsLen > 0 && ok {
+	_, isMulti := rpc.(*multi)
+	// a multi response is always passed through DeserializeCellBlocks, which also
+	// checks that its action indices make sense before results are dispatched
+	if d, ok := rpc.(canDeserializeCellBlocks); (cellsLen > 0 || isMulti) && ok {
 		if uint64(cellsLen) > uint64(size)-uint64(headerLen)-uint64(responseLen) {
 			err = RetryableError{fmt.Errorf(
 				"cellblock length %d is larger than what is left of the response: %d",
